@@ -11,7 +11,10 @@ Lemma C04_facts_ok :
   update_checks_merged_metadata = Known true /\
   (* a snapshot is taken on the apply goroutine, between two entries, and labelled with the index applied so far: its
      contents are the replay of exactly the entries up to its label (the premise of the snapshot-cut theorem) *)
-  snapshot_on_apply_goroutine = Known true /\ snapshot_labelled_with_applied_index = Known true.
+  snapshot_on_apply_goroutine = Known true /\ snapshot_labelled_with_applied_index = Known true /\
+  (* a restarted replica is handed every committed entry after its snapshot again: the raft node is configured with
+     the stored log as it is (no Applied index set) *)
+  raft_config_shape = Known true.
 Proof. repeat split; reflexivity. Qed.
 
 (* any two replicas — whatever their graphs, levels and iteration orders, as long as their index meets the store
